@@ -162,6 +162,12 @@ type EncPlan struct {
 	PtrEvery int            `json:"ptr_every"`
 	Deep     int            `json:"deep,omitempty"` // containers opened by tokens before Calls (deep mode)
 	DeepObj  bool           `json:"deep_obj,omitempty"`
+	// SweepFaults (c07): additionally place one write fault of every kind at EVERY byte of the output.
+	SweepFaults bool `json:"sweep_write_faults,omitempty"`
+	// Exhaustive (c06): after the drawn prefix, enumerate every call sequence of this length over a fixed alphabet.
+	Exhaustive int `json:"exhaustive_suffix_len,omitempty"`
+
+	outLen int
 }
 
 // Enc is the encoder scenario.
@@ -390,8 +396,20 @@ func (sc *Enc) plan(t *core.Tape, env *Env) *EncPlan {
 			ws := t.S("writer")
 			sc.genWriteFaults(ws, p)
 		}
+		if cs.Chance(1, 40) {
+			// a small program whose fault positions can be swept exhaustively
+			text := gen.Text(cs, gen.JSONCfg{MaxBytes: 96 + cs.Draw(160), MaxDepth: 2 + cs.Draw(3), DupNames: p.Opts.AllowDup})
+			p.Calls = textToCalls(cs, text, 2)
+			p.SweepFaults = true
+		}
 	default:
 		sc.genMixed(cs, p, env)
+		if p.Deep == 0 && cs.Chance(1, 60) {
+			if len(p.Calls) > 6 {
+				p.Calls = p.Calls[:cs.Draw(7)]
+			}
+			p.Exhaustive = 2 + cs.Draw(2)
+		}
 	}
 	return p
 }
@@ -602,10 +620,84 @@ func (sc *Enc) Run(t *core.Tape, env *Env) (any, []core.Violation) {
 	switch sc.Mode {
 	case "c07":
 		sc.runFaulty(p, env, report)
+		if p.SweepFaults && len(viols) == 0 {
+			// exhaustive over the position of one write fault: disk full at every
+			// byte k, a short write at every byte k, an error-after-full-write and
+			// a zero-progress error at every byte k of the output
+			n := p.outLen
+			execs := 0
+			for k := 0; k <= n+1 && len(viols) == 0; k++ {
+				for kind := 0; kind < 4 && len(viols) == 0; kind++ {
+					q := *p
+					q.SweepFaults = false
+					q.BytesBuf = false
+					switch kind {
+					case 0:
+						q.Write = core.WritePlan{DiskFullAt: k + 1}
+					default:
+						q.Write = core.WritePlan{FaultAt: []core.WriteFault{{Off: k, Kind: kind}}}
+					}
+					sc.runFaulty(&q, env, report)
+					execs++
+				}
+			}
+			if len(viols) > 0 {
+				viols[len(viols)-1].Detail += " [found by the exhaustive write-fault sweep]"
+			}
+			env.Stats.ProbeN("enc/exhaustive-write-fault-sweep-executions", execs)
+			env.Stats.Probe("enc/exhaustive-write-fault-sweep-programs")
+		}
 	default:
-		sc.runMixed(p, env, report)
+		if p.Exhaustive > 0 {
+			sc.runExhaustive(p, env, report)
+		} else {
+			sc.runMixed(p, env, report)
+		}
 	}
 	return p, viols
+}
+
+// exhaustAlphabet is the call alphabet of the bounded-exhaustive mode.
+var exhaustAlphabet = []EncCall{
+	{Op: 'T', Tok: '{'}, {Op: 'T', Tok: '}'}, {Op: 'T', Tok: '['}, {Op: 'T', Tok: ']'},
+	{Op: 'T', Tok: 's', S: "a"}, {Op: 'T', Tok: 's', S: "b"}, {Op: 'T', Tok: 'n'}, {Op: 'T', Tok: 'i', I: 7},
+	{Op: 'T', Tok: 's', S: "\xff"}, {Op: 'T', Tok: 'z'},
+	{Op: 'V', Val: `"a"`}, {Op: 'V', Val: `{"a":1,"a":2}`}, {Op: 'V', Val: `[1,{"b":null}]`}, {Op: 'V', Val: `tru`}, {Op: 'V', Val: ` 1 `},
+}
+
+// runExhaustive enumerates EVERY call sequence of the given length over the
+// alphabet (after a drawn prefix) and checks each with the mixed-mode oracles.
+func (sc *Enc) runExhaustive(p *EncPlan, env *Env, report reportFn) {
+	L := p.Exhaustive
+	idx := make([]int, L)
+	prefix := p.Calls
+	n := 0
+	for {
+		q := *p
+		q.Exhaustive = 0
+		q.Calls = append(append([]EncCall(nil), prefix...), make([]EncCall, L)...)
+		for i, k := range idx {
+			q.Calls[len(prefix)+i] = exhaustAlphabet[k]
+		}
+		before := env.Stats.Nontrivial
+		sc.runMixed(&q, env, report)
+		env.Stats.Nontrivial = env.Stats.Nontrivial || before
+		n++
+		// next sequence
+		i := L - 1
+		for ; i >= 0; i-- {
+			idx[i]++
+			if idx[i] < len(exhaustAlphabet) {
+				break
+			}
+			idx[i] = 0
+		}
+		if i < 0 {
+			break
+		}
+	}
+	env.Stats.ProbeN("enc/exhaustive-sequences-checked", n)
+	env.Stats.Probe(fmt.Sprintf("enc/exhaustive-runs/length-%d", L))
 }
 
 type reportFn func(prop, class, site, f string, a ...any) bool
@@ -663,6 +755,7 @@ func (sc *Enc) runFaulty(p *EncPlan, env *Env, report reportFn) {
 	}
 	closeAll(te)
 	F := append([]byte(nil), tb.Bytes()...)
+	p.outLen = len(F)
 
 	var w io.Writer
 	var sw *core.SimWriter
